@@ -286,7 +286,12 @@ class Connection(object):
         if label == consts.LABEL_VALUE:
             return value
         if label == consts.LABEL_TUPLE:
-            return tuple(self._unbox(item) for item in value)
+            # look up references to our own objects first: creating a netref for another item may have to
+            # query the peer (HANDLE_INSPECT), and while waiting for the answer we may serve the peer's
+            # release of an object that a later item of this very tuple refers to
+            return tuple(self._unbox(item) for item in self._resolve_local_refs(value))
+        if label is None:  # resolved by _resolve_local_refs
+            return value
         if label == consts.LABEL_LOCAL_REF:
             return self._local_objects[value]
         if label == consts.LABEL_REMOTE_REF:
@@ -299,6 +304,16 @@ class Connection(object):
                 self._proxy_cache[id_pack] = proxy
             return proxy
         raise ValueError("invalid label %r" % (label,))
+
+    def _resolve_local_refs(self, items):  # boxing
+        resolved = []
+        for label, value in items:
+            if label == consts.LABEL_LOCAL_REF:
+                label, value = None, self._local_objects[value]
+            elif label == consts.LABEL_TUPLE:
+                value = self._resolve_local_refs(value)
+            resolved.append((label, value))
+        return resolved
 
     def _netref_factory(self, id_pack):  # boxing
         """id_pack is for remote, so when class id fails to directly match """
